@@ -119,7 +119,15 @@ Definition dc_lists : mlists F :=
      L_zk := zk;
      L_xr := map (fun k => map (fun i => helpers k i) (seq 0 M)) (seq 0 N);
      L_zr := map (fun k => map (fun i => zvals k i) (seq 0 M)) (seq 0 N);
-     L_tr := map (fun k => map (fun i => map (fun j => t_root k i j) (seq 0 d)) (seq 0 M)) (seq 0 N) |}.
+     L_tr := map (fun k => map (fun i => map (fun j => t_root k i j) (seq 0 d)) (seq 0 M)) (seq 0 N);
+     (* poly_coeff = Xc * (poly*S): power p of the Lagrange basis over [0]+tau, rescaled by dt^p *)
+     L_poly := map (fun ki => map (fun p => wsum (map (fun j => nth p (lagrange (tau_root tau) j) o0
+                                                               /! opow (dt_k (fst ki)) p) (seq 0 (S d)))
+                                                 (Xc_full (fst ki) (snd ki))) (seq 0 (S d))) steps;
+     L_polyq := [];
+     L_polyz := map (fun ki => map (fun p => wsum (map (fun j => nth p (lagrange tau j) o0
+                                                                /! opow (dt_k (fst ki)) p) (seq 0 d))
+                                                  (zvals (fst ki) (snd ki))) (seq 0 d)) steps |}.
 
 Definition roots_rows_at (L : mlists F) (k i j : nat) : list (row F) :=
   map (fun c => row_at_root L c k i j d) (o_c_roots oc).
